@@ -56,6 +56,396 @@ example : memJoinBranch 2 3 4 4 4 = 5 ∧
     read (memJoin (fun x => UInt8.ofNat x) 2 3 4 4 4) 2 8 = [3, 4, 5, 6, 4, 5, 6, 7] := by
   rw [memJoin_eq_spec]; decide
 
+/-! ### high-level functions: orderings of reads and writes, abstract core -/
+
+/-- reading a region that a `memMove` does not touch -/
+theorem read_memMove_disj (m : Mem) (d s n a k : Nat) (h : disj2 d n a k = true) :
+    read (memMove m d s n) a k = read m a k := by
+  rw [disj2_iff] at h
+  rw [read_eq_iff]
+  intro i hi
+  have : ¬ (d ≤ a + i ∧ a + i < d + n) := by omega
+  simp only [memMove, this, if_false]
+
+/-- belt.h beltCBCEncr/Decr, beltCFBEncr/Decr, beltCTR, beltBDEEncr/Decr ("Буферы могут пересекаться"):
+    for every placement of dest, src, key, iv the core receives the OLD key, iv and src, and dest
+    receives its result; nothing else is written. -/
+theorem beltModeIv_overlap (c : Core) (id : String) (m : Mem) (dest src count key len iv : Nat) :
+    run c (progModeIv id dest src count key len iv) ⟨m, [], 0⟩ =
+      some ⟨write (memMove m dest src count) dest (c.x id [read m key len, read m iv 16] (read m src count)),
+            [read m key len, read m iv 16, read m src count], 0⟩ := by
+  simp [run, progModeIv, (memMove_overlap m dest src count).1]
+
+example : (run ⟨fun _ tr b => (tr.foldl (· ++ ·) []) ++ b, fun _ _ _ => [], fun _ _ _ => true⟩
+    (progModeIv "x" 0 1 2 1 1 2) ⟨fun x => UInt8.ofNat x, [], 0⟩).map (fun s => read s.mem 0 4) = some [1, 2, 3, 4] := by
+  simp [beltModeIv_overlap]; decide
+
+/-- belt.h beltSDEEncr/Decr ("Буферы могут пересекаться"), code as fixed by docs/C11.fix-1.diff -/
+theorem beltSDE_overlap (c : Core) (id : String) (m : Mem) (dest src count key len iv : Nat) :
+    run c (progSDE id dest src count key len iv) ⟨m, [], 0⟩ =
+      some ⟨write (memMove m dest src count) dest (c.x id [read m key len, read m iv 16] (read m src count)),
+            [read m key len, read m iv 16, read m src count], 0⟩ := by
+  simp [run, progSDE, (memMove_overlap m dest src count).1]
+
+/-- the code before the fix read iv after the move: what reaches the core is the iv region of the
+    MOVED memory — equal to the old iv only when iv and dest are disjoint (or dest = src) -/
+theorem beltSDE_old_reads_moved_iv (c : Core) (id : String) (m : Mem) (dest src count key len iv : Nat) :
+    (run c (progSDE_old id dest src count key len iv) ⟨m, [], 0⟩).map (·.tr) =
+      some [read m key len, read (memMove m dest src count) iv 16, read m src count] := by
+  simp [run, progSDE_old, (memMove_overlap m dest src count).1]
+
+/-- belt.h beltFMTEncr/Decr ("Все буферы, кроме iv и [count]dest, могут пересекаться"; the same exclusion
+    is an ERR_BAD_INPUT check of the code): under the header's exclusion, as above. -/
+theorem beltFMT_overlap (c : Core) (id : String) (m : Mem) (dest src count key len iv : Nat) (ivNull : Bool)
+    (h : ivNull = true ∨ disj2 dest (2 * count) iv 16 = true) :
+    run c (progFMT id dest src count key len iv ivNull) ⟨m, [], 0⟩ =
+      some ⟨write (memMove m dest src (2 * count)) dest
+              (c.x id [read m key len, read m iv (if ivNull then 0 else 16)] (read m src (2 * count))),
+            [read m key len, read m iv (if ivNull then 0 else 16), read m src (2 * count)], 0⟩ := by
+  have hz : ∀ (mm : Mem), read mm iv 0 = [] := fun _ => rfl
+  rcases h with h | h
+  · subst h
+    simp [run, progFMT, (memMove_overlap m dest src (2 * count)).1, hz]
+  · cases ivNull
+    · simp [run, progFMT, h, (memMove_overlap m dest src (2 * count)).1, read_memMove_disj _ _ _ _ _ _ h]
+    · simp [run, progFMT, (memMove_overlap m dest src (2 * count)).1, hz]
+
+/-- …and when the exclusion is violated the function refuses (ERR_BAD_INPUT) without writing -/
+theorem beltFMT_rejects (c : Core) (id : String) (m : Mem) (dest src count key len iv : Nat)
+    (h : disj2 dest (2 * count) iv 16 = false) :
+    (run c (progFMT id dest src count key len iv false) ⟨m, [], 0⟩).map (fun s => (s.ret, s.tr)) =
+      some (ERR_BAD_INPUT, []) := by
+  simp [run, progFMT, h]
+
+example : disj2 0 (2 * 4) 8 16 = true := by decide
+
+/-- belt.h beltMAC, beltHMAC ("Буферы могут пересекаться"): mac may lie anywhere, also over src or key -/
+theorem beltMAC_overlap (c : Core) (id : String) (m : Mem) (mac src count key len n : Nat) :
+    run c (progMAC id mac src count key len n) ⟨m, [], 0⟩ =
+      some ⟨write m mac (c.g id [read m key len, read m src count] n), [read m key len, read m src count], 0⟩ := by
+  simp [run, progMAC]
+
+/-- belt.h beltHash, bash.h bashHash ("Буферы могут пересекаться") -/
+theorem hash_overlap (c : Core) (id : String) (m : Mem) (hash src count n : Nat) :
+    run c (progHash id hash src count n) ⟨m, [], 0⟩ =
+      some ⟨write m hash (c.g id [read m src count] n), [read m src count], 0⟩ := by
+  simp [run, progHash]
+
+/-- belt.h beltKRP ("Буферы могут пересекаться"): header is absorbed before dest is written -/
+theorem beltKRP_overlap (c : Core) (id : String) (m : Mem) (dest mm src n level header : Nat) :
+    run c (progKRP id dest mm src n level header) ⟨m, [], 0⟩ =
+      some ⟨write m dest (c.g id [read m level 12, read m src n, read m header 16] mm),
+            [read m level 12, read m src n, read m header 16], 0⟩ := by
+  simp [run, progKRP]
+
+/-- belt.h beltDWPWrap, beltCHEWrap ("Буферы могут пересекаться, за исключением пересечения dest и mac"):
+    the ciphertext is the core's function of old key, iv, src2 (absorbed by StepI BEFORE the move) and
+    old src1; the mac is computed from these and the ciphertext. -/
+theorem beltWrap_overlap (c : Core) (idx idg : String) (m : Mem) (dest mac src1 count1 src2 count2 key len iv : Nat)
+    (hlen : ∀ tr b, (c.x idx tr b).length = b.length) :
+    let K := [read m key len, read m iv 16, read m src2 count2]
+    let C := c.x idx K (read m src1 count1)
+    let T := c.g idg (K ++ [read m src1 count1, C]) 8
+    run c (progWrap idx idg dest mac src1 count1 src2 count2 key len iv) ⟨m, [], 0⟩ =
+      some ⟨write (write (memMove m dest src1 count1) dest C) mac T, K ++ [read m src1 count1, C], 0⟩ := by
+  intro K C T
+  have hC : C.length = count1 := by simp [C, hlen, read_length]
+  have h1 := (memMove_overlap m dest src1 count1).1
+  have h2 : read (write (memMove m dest src1 count1) dest C) dest count1 = C := by
+    rw [← hC]; exact read_write_same _ _ _
+  simp [run, progWrap, h1, K, C, T]
+  constructor
+  · simp [C, K] at h2; rw [h2]
+  · simp [C, K] at h2; rw [h2]
+
+/-- under the header's exclusion (dest ∩ mac = ∅) the ciphertext in dest survives the write of mac -/
+theorem beltWrap_dest (c : Core) (idx idg : String) (m : Mem) (dest mac src1 count1 src2 count2 key len iv : Nat)
+    (hlen : ∀ tr b, (c.x idx tr b).length = b.length) (hg : ∀ tr n, (c.g idg tr n).length = n)
+    (hd : disj2 dest count1 mac 8 = true) :
+    (run c (progWrap idx idg dest mac src1 count1 src2 count2 key len iv) ⟨m, [], 0⟩).map
+        (fun s => read s.mem dest count1) =
+      some (c.x idx [read m key len, read m iv 16, read m src2 count2] (read m src1 count1)) := by
+  have := beltWrap_overlap c idx idg m dest mac src1 count1 src2 count2 key len iv hlen
+  simp only at this
+  rw [this]
+  simp only [Option.map_some, Option.some.injEq]
+  rw [disj2_iff] at hd
+  have hC : (c.x idx [read m key len, read m iv 16, read m src2 count2] (read m src1 count1)).length = count1 := by
+    simp [hlen, read_length]
+  apply List.ext_getElem
+  · simp [read_length, hC]
+  · intro i h1 h2
+    simp [read_length] at h1
+    simp only [read_getElem, write, hg, hC]
+    have a : ¬ (mac ≤ dest + i ∧ dest + i < mac + 8) := by omega
+    have b : dest ≤ dest + i ∧ dest + i < dest + count1 := by omega
+    simp [a, b, List.getD, h2]
+
+/-- belt.h beltDWPUnwrap, beltCHEUnwrap ("Буферы могут пересекаться"): the mac is verified (read) BEFORE
+    dest is written, so mac, key, iv, src2 may lie inside dest -/
+theorem beltUnwrap_overlap (c : Core) (idx idv : String) (m : Mem) (dest src1 count1 src2 count2 mac key len iv : Nat) :
+    let K := [read m key len, read m iv 16, read m src2 count2, read m src1 count1]
+    run c (progUnwrap idx idv dest src1 count1 src2 count2 mac key len iv) ⟨m, [], 0⟩ =
+      if c.ok idv K (read m mac 8) then
+        some ⟨write (memMove m dest src1 count1) dest (c.x idx K (read m src1 count1)), K ++ [read m src1 count1], 0⟩
+      else some ⟨memSet m 0 0 0, K, ERR_BAD_MAC⟩ := by
+  intro K
+  simp only [run, progUnwrap, List.nil_append, List.cons_append, K]
+  split
+  · simp [(memMove_overlap m dest src1 count1).1]
+  · rfl
+
+/-- the buffer `beltKWPWrap` hands to the core when header = 0 -/
+theorem read_move_zero (m : Mem) (dest src count : Nat) :
+    read (memSet (memMove m dest src count) (dest + count) 0 16) dest (count + 16) =
+      read m src count ++ List.replicate 16 0 := by
+  apply List.ext_getElem
+  · simp [read_length]
+  · intro i h1 h2
+    simp [read_length] at h1
+    simp only [read_getElem, memSet, memMove]
+    by_cases hi : i < count
+    · have a : ¬ (dest + count ≤ dest + i ∧ dest + i < dest + count + 16) := by omega
+      have b : dest ≤ dest + i ∧ dest + i < dest + count := by omega
+      rw [List.getElem_append_left (by simpa [read_length] using hi)]
+      simp only [a, b, and_self, if_true, if_false, read_getElem]
+      congr 1; omega
+    · have a : dest + count ≤ dest + i ∧ dest + i < dest + count + 16 := by omega
+      rw [List.getElem_append_right (by simpa [read_length] using hi)]
+      simp only [a, and_self, if_true, List.getElem_replicate]
+
+/-- belt.h beltKWPWrap ("Буферы могут пересекаться"; the code additionally rejects header ∩ src with
+    ERR_BAD_INPUT): with a header, for every placement of dest, src, header, key the core receives
+    old src ‖ old header — through `memJoin`, all branches (code as fixed in /repo by 7d517b5). -/
+theorem beltKWPWrap_overlap (c : Core) (id : String) (m : Mem) (dest src count header key len : Nat)
+    (h : disj2 src count header 16 = true) :
+    run c (progKWPWrap id dest src count header key len false) ⟨m, [], 0⟩ =
+      some ⟨write (memJoin m dest src count header 16) dest (c.x id [read m key len] (read m src count ++ read m header 16)),
+            [read m key len, read m src count ++ read m header 16], 0⟩ := by
+  simp [run, progKWPWrap, h, (memJoin_overlap m dest src count header 16).1]
+
+/-- …and without a header: old src ‖ 0^128 -/
+theorem beltKWPWrap_nohdr_overlap (c : Core) (id : String) (m : Mem) (dest src count header key len : Nat) :
+    run c (progKWPWrap id dest src count header key len true) ⟨m, [], 0⟩ =
+      some ⟨write (memSet (memMove m dest src count) (dest + count) 0 16) dest
+              (c.x id [read m key len] (read m src count ++ List.replicate 16 0)),
+            [read m key len, read m src count ++ List.replicate 16 0], 0⟩ := by
+  simp [run, progKWPWrap, read_move_zero]
+
+/-- the defect F5 (fixed in /repo): with the premature `memMove` the core receives the src region of
+    the MOVED memory -/
+theorem beltKWPWrap_old_reads_moved_src (c : Core) (id : String) (m : Mem) (dest src count header key len : Nat) :
+    (run c (progKWPWrap_old id dest src count header key len) ⟨m, [], 0⟩).map (·.tr) =
+      some [read m key len, read (memMove m dest src count) src count ++ read (memMove m dest src count) header 16] := by
+  simp [run, progKWPWrap_old, (memJoin_overlap (memMove m dest src count) dest src count header 16).1]
+
+/-- belt.h beltKWPUnwrap ("Буферы могут пересекаться"), code as fixed by docs/C11.fix-2.diff: header and the
+    last block of src are absorbed before dest is written -/
+theorem beltKWPUnwrap_overlap (c : Core) (idx idv : String) (m : Mem) (dest src count header key len : Nat) (hdrNull : Bool) :
+    let K := [read m key len, read m header (if hdrNull then 0 else 16), read m (src + count - 16) 16]
+    run c (progKWPUnwrap idx idv dest src count header key len hdrNull) ⟨m, [], 0⟩ =
+      let X := c.x idx K (read m src (count - 16))
+      let m1 := write (memMove m dest src (count - 16)) dest X
+      if c.ok idv (K ++ [read m src (count - 16)]) [] then some ⟨m1, K ++ [read m src (count - 16)], 0⟩
+      else some ⟨memSet m1 dest 0 (count - 16), K ++ [read m src (count - 16)], ERR_BAD_KEYTOKEN⟩ := by
+  intro K
+  simp only [run, progKWPUnwrap, List.nil_append, List.cons_append, K, (memMove_overlap m dest src (count - 16)).1]
+  have : read (write (memMove m dest src (count - 16)) dest
+      (c.x idx [read m key len, read m header (if hdrNull = true then 0 else 16), read m (src + count - 16) 16]
+        (read m src (count - 16)))) 0 0 = [] := by simp [read]
+  rw [this]
+
+/-! ### state-resident placements -/
+
+/-- belt.h `belt*Start` ("Буферы key и state могут пересекаться"): the first statement moves key into
+    `st->key`; for every placement of key — inside the state, over `st->key` at any offset — the rest of
+    Start runs on the memory in which `st->key` holds the OLD key octets: the call is equivalent to the
+    call with a separate key buffer. -/
+theorem start_overlap (c : Core) (id : String) (m : Mem) (state kOff key len iv ivLen : Nat) (fields : List (Nat × Nat)) :
+    run c (progStart id state kOff key len iv ivLen fields) ⟨m, [], 0⟩ =
+      run c ((progStart id state kOff key len iv ivLen fields).tail) ⟨write m (state + kOff) (read m key len), [], 0⟩ := by
+  simp [run, progStart, memMove_eq_write]
+
+/-- …and the key field then holds exactly the old key -/
+theorem start_key_field (m : Mem) (state kOff key len : Nat) :
+    read (memMove m (state + kOff) key len) (state + kOff) len = read m key len :=
+  (memMove_overlap m (state + kOff) key len).1
+
+/-- belt.h/bash.h `*StepG` ("mac/hash и state могут пересекаться"): the value is completed inside the state
+    and then moved out by `u32To`/`memMove`: for every placement of the output, also inside the state, it
+    receives the octets the state held after `_internal`. -/
+theorem stepG_overlap (c : Core) (id : String) (m : Mem) (mac n state keep mOff : Nat) :
+    (run c (progStepG id mac n state keep mOff) ⟨m, [], 0⟩).map (fun s => read s.mem mac n) =
+      some (read (write m state (c.x id [] (read m state keep))) (state + mOff) n) := by
+  simp [run, progStepG, (memMove_overlap _ mac (state + mOff) n).1]
+
+/-! ### mem.h memXor / memXor2 (dest either coincides with or is disjoint from each source) -/
+
+theorem memXor2_apply : ∀ (n : Nat) (m : Mem) (d s x : Nat), (s = d ∨ s + n ≤ d ∨ d + n ≤ s) →
+    memXor2 m d s n x = if d ≤ x ∧ x < d + n then m x ^^^ m (s + (x - d)) else m x := by
+  intro n
+  induction n with
+  | zero =>
+    intro m d s x _
+    have : ¬ (d ≤ x ∧ x < d + 0) := by omega
+    simp only [memXor2, this, if_false]
+  | succ n ih =>
+    intro m d s x h
+    rw [memXor2, ih _ _ _ _ (by omega)]
+    simp only [set1]
+    by_cases hx : x = d
+    · subst hx
+      have a : ¬ (x + 1 ≤ x ∧ x < x + 1 + n) := by omega
+      have b : x ≤ x ∧ x < x + (n + 1) := by omega
+      simp [a, b]
+    · by_cases hr : d + 1 ≤ x ∧ x < d + 1 + n
+      · have b : d ≤ x ∧ x < d + (n + 1) := by omega
+        have e : ¬ (s + 1 + (x - (d + 1)) = d) := by omega
+        simp only [hr, b, hx, e, and_self, if_true, if_false]
+        congr 2; omega
+      · have b : ¬ (d ≤ x ∧ x < d + (n + 1)) := by omega
+        simp only [hr, b, hx, if_false]
+
+/-- mem.h `memXor2` ("dest либо не пересекается, либо совпадает с буфером src") -/
+theorem memXor2_sameOrDisjoint (m : Mem) (d s n : Nat) (h : sameOrDisj s d n = true) :
+    read (memXor2 m d s n) d n = xorBytes (read m d n) (read m s n) := by
+  have h' : s = d ∨ s + n ≤ d ∨ d + n ≤ s ∨ n = 0 := by
+    simp [sameOrDisj, disj] at h; omega
+  apply List.ext_getElem
+  · have : ∀ (a b : Bytes), a.length = b.length → (xorBytes a b).length = a.length := by
+      intro a; induction a with
+      | nil => intro b _; cases b <;> simp [xorBytes]
+      | cons x xs ih => intro b hb; cases b with
+        | nil => simp at hb
+        | cons y ys => simp [xorBytes]; exact ih ys (by simpa using hb)
+    simp [read_length, this]
+  · intro i h1 h2
+    simp [read_length] at h1
+    have key : ∀ (a b : Bytes) (i : Nat) (h : i < (xorBytes a b).length) (ha : i < a.length) (hb : i < b.length),
+        (xorBytes a b)[i] = a[i] ^^^ b[i] := by
+      intro a; induction a with
+      | nil => intro b i h; simp [xorBytes] at h
+      | cons x xs ih => intro b i h ha hb; cases b with
+        | nil => simp at hb
+        | cons y ys => cases i with
+          | zero => simp [xorBytes]
+          | succ j => simp [xorBytes]; exact ih ys j _ _ _
+    rw [key _ _ _ h2 (by simp [read_length, h1]) (by simp [read_length, h1])]
+    simp only [read_getElem]
+    rw [memXor2_apply _ _ _ _ _ (by omega)]
+    have : d ≤ d + i ∧ d + i < d + n := by omega
+    simp only [this, and_self, if_true]
+    congr 2; omega
+
+example : sameOrDisj 3 3 8 = true ∧ sameOrDisj 0 8 8 = true := by decide
+
+theorem memXor_apply : ∀ (n : Nat) (m : Mem) (d s1 s2 x : Nat),
+    (s1 = d ∨ s1 + n ≤ d ∨ d + n ≤ s1) → (s2 = d ∨ s2 + n ≤ d ∨ d + n ≤ s2) →
+    memXor m d s1 s2 n x = if d ≤ x ∧ x < d + n then m (s1 + (x - d)) ^^^ m (s2 + (x - d)) else m x := by
+  intro n
+  induction n with
+  | zero =>
+    intro m d s1 s2 x _ _
+    have : ¬ (d ≤ x ∧ x < d + 0) := by omega
+    simp only [memXor, this, if_false]
+  | succ n ih =>
+    intro m d s1 s2 x h1 h2
+    rw [memXor, ih _ _ _ _ _ (by omega) (by omega)]
+    simp only [set1]
+    by_cases hx : x = d
+    · subst hx
+      have a : ¬ (x + 1 ≤ x ∧ x < x + 1 + n) := by omega
+      have b : x ≤ x ∧ x < x + (n + 1) := by omega
+      simp [a, b]
+    · by_cases hr : d + 1 ≤ x ∧ x < d + 1 + n
+      · have b : d ≤ x ∧ x < d + (n + 1) := by omega
+        have e1 : ¬ (s1 + 1 + (x - (d + 1)) = d) := by omega
+        have e2 : ¬ (s2 + 1 + (x - (d + 1)) = d) := by omega
+        simp only [hr, b, e1, e2, and_self, if_true, if_false]
+        congr 2 <;> omega
+      · have b : ¬ (d ≤ x ∧ x < d + (n + 1)) := by omega
+        simp only [hr, b, hx, if_false]
+
+/-- mem.h `memXor` ("dest либо не пересекается, либо совпадает с каждым из буферов src1, src2"):
+    every octet of dest is the XOR of the OLD source octets -/
+theorem memXor_sameOrDisjoint (m : Mem) (d s1 s2 n : Nat)
+    (h1 : sameOrDisj s1 d n = true) (h2 : sameOrDisj s2 d n = true) :
+    ∀ i, i < n → memXor m d s1 s2 n (d + i) = m (s1 + i) ^^^ m (s2 + i) := by
+  intro i hi
+  have h1' : s1 = d ∨ s1 + n ≤ d ∨ d + n ≤ s1 := by simp [sameOrDisj, disj] at h1; omega
+  have h2' : s2 = d ∨ s2 + n ≤ d ∨ d + n ≤ s2 := by simp [sameOrDisj, disj] at h2; omega
+  rw [memXor_apply _ _ _ _ _ _ h1' h2']
+  have : d ≤ d + i ∧ d + i < d + n := by omega
+  simp only [this, and_self, if_true]
+  congr 2 <;> omega
+
+/-! ### der.h: `val` (and `len`) may overlap `der` -/
+
+theorem read_write_disj (m : Mem) (a : Nat) (bs : Bytes) (b k : Nat) (h : disj2 a bs.length b k = true) :
+    read (write m a bs) b k = read m b k := by
+  rw [disj2_iff] at h
+  rw [read_eq_iff]
+  intro i hi
+  have : ¬ (a ≤ b + i ∧ b + i < a + bs.length) := by omega
+  simp only [write, this, if_false]
+
+theorem natLE_length (n v : Nat) : (Bee2V.Proto.natLE n v).length = n := by
+  induction n generalizing v with
+  | zero => rfl
+  | succ n ih => simp [Bee2V.Proto.natLE, ih]
+
+/-- der.h `derEnc` ("Буферы der и val могут пересекаться"), also derTPSTREnc / derOCTEnc which call it:
+    for every placement of val against der and every TL prefix the code is `TL ‖ old val`. -/
+theorem derEnc_overlap (m : Mem) (der val len : Nat) (tl : Bytes) :
+    read (derEnc m der val len tl) der (tl.length + len) = tl ++ read m val len := by
+  rw [read_append]
+  congr 1
+  · exact read_write_same _ _ _
+  · rw [derEnc, read_write_disj _ _ _ _ _ (by rw [disj2_iff]; omega)]
+    exact (memMove_overlap m (der + tl.length) val len).1
+
+example : read (derEnc (fun x => UInt8.ofNat x) 0 1 3 [4, 3]) 0 5 = [4, 3, 1, 2, 3] := by decide
+
+/-- der.h `derTOCTDec` ("val и len не пересекаются между собой, но могут пересекаться с буфером der"):
+    for every placement of val and len against der (val, len disjoint from each other) val receives the OLD
+    value octets and len the length. `(voff, l)` is any result of the TL parse. -/
+theorem derTOCTDec_overlap (m : Mem) (val lp der voff l : Nat) (h : disj2 val l lp 8 = true) :
+    read (derTOCTDec m (some val) (some lp) der voff l) val l = read m (der + voff) l ∧
+    read (derTOCTDec m (some val) (some lp) der voff l) lp 8 = Bee2V.Proto.natLE 8 l := by
+  constructor
+  · simp only [derTOCTDec, putSize]
+    rw [read_write_disj _ _ _ _ _ (by rw [natLE_length]; rw [disj2_iff] at h ⊢; omega)]
+    exact (memMove_overlap m val (der + voff) l).1
+  · simp only [derTOCTDec, putSize]
+    have := read_write_same (memMove m val (der + voff) l) lp (Bee2V.Proto.natLE 8 l)
+    rwa [natLE_length] at this
+
+example : disj2 1 3 16 8 = true := by decide
+
+/-- der.h `derTOCTDec2` / `derTBITDec2` ("буфер может пересекаться с der") -/
+theorem derTOCTDec2_overlap (m : Mem) (val der voff l : Nat) :
+    read (derTOCTDec2 m (some val) der voff l) val l = read m (der + voff) l :=
+  (memMove_overlap m val (der + voff) l).1
+
+/-- der.h `derTBITDec`, code as fixed by docs/C11.fix-4.diff: the bit length is computed from the OLD pad
+    octet `der[voff]` for every placement of val (e.g. val = der + 1, which covers that octet). -/
+theorem derTBITDec_overlap (m : Mem) (val lp der voff l : Nat) (hok : bitOk m (der + voff) l = true)
+    (h : disj2 val (l - 1) lp 8 = true) :
+    ∃ m', derTBITDec m (some val) (some lp) der voff l = some m' ∧
+      read m' val (l - 1) = read m (der + voff + 1) (l - 1) ∧
+      read m' lp 8 = Bee2V.Proto.natLE 8 ((l - 1) * 8 - (m (der + voff)).toNat) := by
+  refine ⟨_, by simp [derTBITDec, hok]; rfl, ?_, ?_⟩
+  · simp only [putSize]
+    rw [read_write_disj _ _ _ _ _ (by rw [natLE_length]; rw [disj2_iff] at h ⊢; omega)]
+    exact (memMove_overlap m val (der + voff + 1) (l - 1)).1
+  · simp only [putSize]
+    have := read_write_same (memMove m val (der + voff + 1) (l - 1)) lp
+      (Bee2V.Proto.natLE 8 ((l - 1) * 8 - (m (der + voff)).toNat))
+    rwa [natLE_length] at this
+
+/-- the witness of the fix: der = 03 03 05 AB E0, val = der + 1 -/
+example : bitOk (fun x => [3, 3, 5, 0xAB, 0xE0].getD x 0) 2 3 = true := by decide
+
 /-! ### coverage of the header remarks (fail-closed) -/
 
 /-- functions of include/bee2/core and include/bee2/crypto documented as overlap-tolerant that this
